@@ -1642,6 +1642,387 @@ theorem C09_write_read_enum {F} (ops : FloatOps F) (cfg : LexCfg) (lookup : Int 
     simp only [attrWrite, hname]; simp
   exact ⟨hw, by rw [hw]; exact C09_accept_enum ops cfg lookup k hk nullable name sp rest d i hne hpw hfind hset hsp hd⟩
 
+/-! ## the delimiter is never consumed, for any input (all kinds) -/
+
+/-- NUMBER: the delimiter is never consumed, for any input and any configuration -/
+theorem C09_delim_kept_number {F} (ops : FloatOps F) (cfg : LexCfg) (lookup : Int → RefLookup) (nullable : Bool)
+    (input : List Byte) (r : ReadResult F)
+    (h : attrRead ops cfg lookup .number nullable (IStream.ofBytes input) = .ok r) : KeptDelims cfg input r.s := by
+  obtain ⟨sp1, body, h1, h2, h3, h4⟩ := dropSpaces_split [] input
+  rcases h4 with rfl | ⟨c, t, rfl, hc⟩
+  · simp at h1; subst h1
+    have hws : (IStream.ofBytes input).ws = { left := input.reverse, right := [], eof := true } := by
+      simpa [IStream.ofBytes] using ws_blank [] input true h2
+    simp only [attrRead, hws] at h
+    simp [IStream.peekC, IStream.peek, IStream.sentry, IStream.good, readNumber, IStream.ws, IStream.extractFloatText,
+      checkRemainingInput, realValue, IStream.failed, Sev.warnIf] at h
+    subst h
+    exact ⟨input, [], [], by simp, by simp, NoCP.blanks h2, Between.nil cfg, NoCP.nil⟩
+  · subst h1
+    by_cases h36 : c = 36
+    · subst h36; exact kept_dollar ops cfg lookup _ nullable sp1 t h2 r h
+    · by_cases hdl : c = 44 ∨ c = 41
+      · exact kept_missing ops cfg lookup _ nullable sp1 t c h2 hdl r h
+      · have hcond : (c == 36 || c == 44 || c == 41) = false := by
+          simp at hdl ⊢; exact ⟨⟨h36, hdl.1⟩, hdl.2⟩
+        have hpre : (IStream.ofBytes (sp1 ++ c :: t)).ws = { left := sp1.reverse, right := c :: t } := by
+          simpa [IStream.ofBytes] using ws_good [] sp1 c t true h2 hc
+        simp only [attrRead, hpre, peekC_good, hcond, readNumber, ws_good0 _ _ _ _ hc, extractFloatText_good _ _ _ hc] at h
+        simp only [Bool.false_eq_true, if_false, Outcome.ok.injEq] at h
+        obtain ⟨hwf, happ, hscan⟩ := numSplit_spec sp1.reverse (c :: t)
+        generalize numSplit (c :: t) = ns at hwf happ hscan
+        obtain ⟨f, rest⟩ := ns
+        simp only at hwf happ hscan
+        rw [hscan] at h
+        simp only at h
+        rw [happ]
+        cases hconv : ops.conv f.norm.text with
+        | ok v =>
+          simp only [hconv] at h; subst h
+          simpa [List.append_assoc] using kept_through_cri cfg sp1 f.text rest rest.isEmpty false true _ h2 (numForm_noCP f hwf)
+        | invalid =>
+          simp only [hconv, IStream.setFail] at h; subst h
+          simpa [List.append_assoc] using kept_through_cri cfg sp1 f.text rest rest.isEmpty true true _ h2 (numForm_noCP f hwf)
+        | overflow =>
+          simp only [hconv, IStream.setFail] at h; subst h
+          simpa [List.append_assoc] using kept_through_cri cfg sp1 f.text rest rest.isEmpty true true _ h2 (numForm_noCP f hwf)
+
+
+/-- REAL: the delimiter is never consumed, for any input and any configuration -/
+theorem C09_delim_kept_real {F} (ops : FloatOps F) (cfg : LexCfg) (lookup : Int → RefLookup) (nullable : Bool)
+    (input : List Byte) (r : ReadResult F)
+    (h : attrRead ops cfg lookup .real nullable (IStream.ofBytes input) = .ok r) : KeptDelims cfg input r.s := by
+  obtain ⟨sp1, body, h1, h2, h3, h4⟩ := dropSpaces_split [] input
+  rcases h4 with rfl | ⟨c, t, rfl, hc⟩
+  · simp at h1; subst h1
+    have hws : (IStream.ofBytes input).ws = { left := input.reverse, right := [], eof := true } := by
+      simpa [IStream.ofBytes] using ws_blank [] input true h2
+    simp only [attrRead, hws] at h
+    simp [IStream.peekC, IStream.peek, IStream.sentry, IStream.good, readReal, IStream.ws, checkRemainingInput, realValue] at h
+    subst h
+    exact ⟨input, [], [], by simp, by simp, NoCP.blanks h2, Between.nil cfg, NoCP.nil⟩
+  · subst h1
+    by_cases h36 : c = 36
+    · subst h36; exact kept_dollar ops cfg lookup _ nullable sp1 t h2 r h
+    · by_cases hdl : c = 44 ∨ c = 41
+      · exact kept_missing ops cfg lookup _ nullable sp1 t c h2 hdl r h
+      · have hcond : (c == 36 || c == 44 || c == 41) = false := by
+          simp at hdl ⊢; exact ⟨⟨h36, hdl.1⟩, hdl.2⟩
+        have hpre : (IStream.ofBytes (sp1 ++ c :: t)).ws = { left := sp1.reverse, right := c :: t } := by
+          simpa [IStream.ofBytes] using ws_good [] sp1 c t true h2 hc
+        simp only [attrRead, hpre, peekC_good, hcond, readReal, ws_good0 _ _ _ _ hc, IStream.good] at h
+        simp only [Bool.false_eq_true, if_false, Bool.not_false, Bool.and_self, Bool.not_true] at h
+        have happ := realCollect_append (c :: t)
+        have hcp := realCollect_noCP (c :: t)
+        generalize realCollect (c :: t) = rc at h happ hcp
+        obtain ⟨buf, rest, e⟩ := rc
+        simp only at h happ hcp
+        rw [← happ]
+        by_cases hov : (cfg.realBuf != 0 && decide (buf.length ≥ cfg.realBuf)) = true
+        · simp [hov] at h
+        · simp only [hov, Bool.false_eq_true, if_false] at h
+          cases hconv : ops.conv (scanFloat [] buf).1 with
+          | ok v =>
+            simp only [hconv, Outcome.ok.injEq] at h; subst h
+            simpa [List.append_assoc] using kept_through_cri cfg sp1 buf rest rest.isEmpty false true _ h2 hcp
+          | invalid =>
+            simp only [hconv, Outcome.ok.injEq] at h; subst h
+            simpa [List.append_assoc] using kept_through_cri cfg sp1 buf rest rest.isEmpty false true _ h2 hcp
+          | overflow =>
+            simp only [hconv, Outcome.ok.injEq] at h; subst h
+            simpa [List.append_assoc] using kept_through_cri cfg sp1 buf rest rest.isEmpty false true _ h2 hcp
+
+
+/-- BINARY: the delimiter is never consumed, for any input and any configuration -/
+theorem C09_delim_kept_binary {F} (ops : FloatOps F) (cfg : LexCfg) (lookup : Int → RefLookup) (nullable : Bool)
+    (input : List Byte) (r : ReadResult F)
+    (h : attrRead ops cfg lookup .binary nullable (IStream.ofBytes input) = .ok r) : KeptDelims cfg input r.s := by
+  obtain ⟨sp1, body, h1, h2, h3, h4⟩ := dropSpaces_split [] input
+  rcases h4 with rfl | ⟨c, t, rfl, hc⟩
+  · simp at h1; subst h1
+    have hws : (IStream.ofBytes input).ws = { left := input.reverse, right := [], eof := true } := by
+      simpa [IStream.ofBytes] using ws_blank [] input true h2
+    simp only [attrRead, hws] at h
+    simp [IStream.peekC, IStream.peek, IStream.sentry, IStream.good, readBinary, IStream.ws, checkRemainingInput] at h
+    subst h
+    exact ⟨input, [], [], by simp, by simp, NoCP.blanks h2, Between.nil cfg, NoCP.nil⟩
+  · subst h1
+    by_cases h36 : c = 36
+    · subst h36; exact kept_dollar ops cfg lookup _ nullable sp1 t h2 r h
+    · by_cases hdl : c = 44 ∨ c = 41
+      · exact kept_missing ops cfg lookup _ nullable sp1 t c h2 hdl r h
+      · have hcond : (c == 36 || c == 44 || c == 41) = false := by
+          simp at hdl ⊢; exact ⟨⟨h36, hdl.1⟩, hdl.2⟩
+        have hcNo : NoCP [c] := by
+          intro b hb; simp at hb; subst hb; simp at hdl; exact hdl
+        have hpre : (IStream.ofBytes (sp1 ++ c :: t)).ws = { left := sp1.reverse, right := c :: t } := by
+          simpa [IStream.ofBytes] using ws_good [] sp1 c t true h2 hc
+        simp only [attrRead, hpre, peekC_good, hcond, Bool.false_eq_true, if_false, Outcome.ok.injEq, readBinary,
+          ws_good0 _ _ _ _ hc, IStream.good, Bool.not_false, Bool.and_self, Bool.not_true, getInto_good] at h
+        by_cases hq : c = 34
+        · subst hq
+          simp only [beq_self_eq_true, Bool.true_or, if_true] at h
+          cases t with
+          | nil =>
+            simp only [getInto_end] at h
+            rw [scanWord_notgood isXDigit 34 34 _ (by simp [IStream.good])] at h
+            subst h
+            simp only
+            generalize Sev.warnIf _ _ = E
+            have := kept_through_cri' cfg sp1 [34] { left := 34 :: sp1.reverse, right := [], eof := true, fail := true, skipws := true }
+              E h2 hcNo rfl rfl
+            simpa using this
+          | cons c1 t1 =>
+            simp only [getInto_good] at h
+            obtain ⟨k, hk1, hk2, hk3, hk4, _⟩ := scanWord_stream isXDigit 34 c1 (34 :: sp1.reverse) t1 true
+            generalize scanWord isXDigit 34 c1 { left := c1 :: 34 :: sp1.reverse, right := t1, skipws := true } = sw at h hk1 hk2 hk4
+            obtain ⟨str, c2, s5⟩ := sw
+            simp only at h hk1 hk2 hk4
+            subst h
+            simp only
+            generalize Sev.warnIf _ _ = E
+            have := kept_through_cri' cfg sp1 (34 :: k) s5 E h2
+              (NoCP.append (a := [34]) (by intro b hb; simp at hb; subst hb; decide) (xdigit_noCP k hk3)) hk4
+              (by rw [hk1]; simp)
+            simpa [hk2] using this
+        · have hq' : (c == 34) = false := by simpa using hq
+          simp only [hq', Bool.false_or, Bool.false_eq_true, if_false] at h
+          by_cases hx : isXDigit c = true
+          · simp only [hx, if_true] at h
+            obtain ⟨k, hk1, hk2, hk3, hk4, _⟩ := scanWord_stream isXDigit 34 c sp1.reverse t true
+            generalize scanWord isXDigit 34 c { left := c :: sp1.reverse, right := t, skipws := true } = sw at h hk1 hk2 hk4
+            obtain ⟨str, c2, s5⟩ := sw
+            simp only at h hk1 hk2 hk4
+            subst h
+            simp only
+            generalize Sev.warnIf _ _ = E
+            have := kept_through_cri' cfg sp1 k s5 E h2 (xdigit_noCP k hk3) hk4 hk1
+            simpa [hk2] using this
+          · have hx' : isXDigit c = false := by simpa using hx
+            simp only [hx', Bool.false_eq_true, if_false] at h
+            subst h
+            have := kept_through_cri' cfg sp1 [c] { left := c :: sp1.reverse, right := t, skipws := true } (Sev.null.greater Sev.warning)
+              h2 hcNo rfl rfl
+            simpa using this
+
+
+/-- BOOLEAN / LOGICAL / ENUMERATION: the delimiter is never consumed, for any input and any configuration -/
+theorem C09_delim_kept_enum {F} (ops : FloatOps F) (cfg : LexCfg) (lookup : Int → RefLookup) (k : Kind) (hk : EnumLike k)
+    (nullable : Bool) (input : List Byte) (r : ReadResult F)
+    (h : attrRead ops cfg lookup k nullable (IStream.ofBytes input) = .ok r) : KeptDelims cfg input r.s := by
+  obtain ⟨sp1, body, h1, h2, h3, h4⟩ := dropSpaces_split [] input
+  rcases h4 with rfl | ⟨c, t, rfl, hc⟩
+  · simp at h1; subst h1
+    have hws : (IStream.ofBytes input).ws = { left := input.reverse, right := [], eof := true } := by
+      simpa [IStream.ofBytes] using ws_blank [] input true h2
+    have : r.s = { left := input.reverse, right := [], eof := true, fail := true } := by
+      rcases hk with rfl | rfl | ⟨items, rfl⟩ <;> simp only [attrRead, hws] at h <;>
+        simp [IStream.peekC, IStream.peek, IStream.sentry, IStream.good, enumRead, readEnum, IStream.ws,
+          checkRemainingInput] at h <;> rw [← h]
+    rw [this]
+    exact ⟨input, [], [], by simp, by simp, NoCP.blanks h2, Between.nil cfg, NoCP.nil⟩
+  · subst h1
+    by_cases h36 : c = 36
+    · subst h36; exact kept_dollar ops cfg lookup _ nullable sp1 t h2 r h
+    · by_cases hdl : c = 44 ∨ c = 41
+      · exact kept_missing ops cfg lookup _ nullable sp1 t c h2 hdl r h
+      · have hcond : (c == 36 || c == 44 || c == 41) = false := by
+          simp at hdl ⊢; exact ⟨⟨h36, hdl.1⟩, hdl.2⟩
+        have hcNo : NoCP [c] := by
+          intro b hb; simp at hb; subst hb; simp at hdl; exact hdl
+        rw [attrRead_enumlike ops cfg lookup k hk nullable sp1 t c h2 hc hcond] at h
+        simp only [Outcome.ok.injEq] at h
+        subst h
+        simp only
+        -- the stream ReadEnum leaves, whatever it reports
+        have key : ∃ kk, NoCP kk ∧ (readEnum cfg k.enumKind true { left := sp1.reverse, right := c :: t } Sev.null).2.1.bad = false ∧
+            (readEnum cfg k.enumKind true { left := sp1.reverse, right := c :: t } Sev.null).2.1.left = kk.reverse ++ sp1.reverse ∧
+            c :: t = kk ++ (readEnum cfg k.enumKind true { left := sp1.reverse, right := c :: t } Sev.null).2.1.right := by
+          simp only [readEnum, ws_good0 _ _ _ _ hc, IStream.good, Bool.not_false, Bool.and_self, Bool.not_true, Bool.false_eq_true,
+            if_false, getInto_good]
+          have hcd : (c == 44 || c == 41) = false := by simp at hdl; simp [hdl.1, hdl.2]
+          by_cases hq : c = 46
+          · subst hq
+            simp only [beq_self_eq_true, Bool.true_or, if_true]
+            cases t with
+            | nil =>
+              simp only [getInto_end]
+              rw [enumWord_notgood 46 _ (by simp [IStream.good])]
+              refine ⟨[46], hcNo, ?_, ?_, ?_⟩ <;> simp
+            | cons c1 t1 =>
+              simp only [getInto_good]
+              rw [enumWord_as_scanWord]
+              obtain ⟨kk, hk1, hk2, hk3, hk4, _⟩ := scanWord_stream pw 46 c1 (46 :: sp1.reverse) t1 true
+              generalize scanWord pw 46 c1 { left := c1 :: 46 :: sp1.reverse, right := t1, skipws := true } = sw at hk1 hk2 hk4 ⊢
+              obtain ⟨str, c3, s6⟩ := sw
+              simp only at hk1 hk2 hk4
+              refine ⟨46 :: kk, NoCP.append (a := [46]) hcNo (pw_noCP kk hk3), ?_, ?_, ?_⟩
+              · split <;> (try split) <;> simp [hk4]
+              · split <;> (try split) <;> simp [hk1]
+              · split <;> (try split) <;> simp [hk2]
+          · have hq' : (c == 46) = false := by simpa using hq
+            simp only [hq', Bool.false_or, Bool.false_eq_true, if_false]
+            by_cases ha : isAlpha c = true
+            · simp only [ha, if_true]
+              rw [enumWord_as_scanWord]
+              obtain ⟨kk, hk1, hk2, hk3, hk4, _⟩ := scanWord_stream pw 46 c sp1.reverse t true
+              generalize scanWord pw 46 c { left := c :: sp1.reverse, right := t, skipws := true } = sw at hk1 hk2 hk4 ⊢
+              obtain ⟨str, c3, s6⟩ := sw
+              simp only at hk1 hk2 hk4
+              refine ⟨kk, pw_noCP kk hk3, ?_, ?_, ?_⟩
+              · split <;> (try split) <;> simp [hk4]
+              · split <;> (try split) <;> simp [hk1]
+              · split <;> (try split) <;> simp [hk2]
+            · have ha' : isAlpha c = false := by simpa using ha
+              simp only [ha', Bool.false_eq_true, if_false, hcd, putback_good]
+              exact ⟨[], NoCP.nil, by triv, by simp, by simp⟩
+        obtain ⟨kk, hkk, hb, hl, hr⟩ := key
+        have hrd : (enumRead cfg k.enumKind nullable { left := sp1.reverse, right := c :: t } Sev.null).2.1 =
+            (readEnum cfg k.enumKind true { left := sp1.reverse, right := c :: t } Sev.null).2.1 := by
+          simp [enumRead]
+        rw [hrd]
+        have := kept_through_cri' cfg sp1 kk _ (enumRead cfg k.enumKind nullable { left := sp1.reverse, right := c :: t } Sev.null).2.2
+          h2 hkk hb hl
+        rw [List.append_assoc, ← hr] at this
+        exact this
+
+
+/-- entity reference: the delimiter is never consumed, for any input and any configuration -/
+theorem C09_delim_kept_ref {F} (ops : FloatOps F) (cfg : LexCfg) (lookup : Int → RefLookup)
+    (nullable : Bool) (input : List Byte) (r : ReadResult F)
+    (h : attrRead ops cfg lookup .ref nullable (IStream.ofBytes input) = .ok r) : KeptDelims cfg input r.s := by
+  obtain ⟨sp1, body, h1, h2, h3, h4⟩ := dropSpaces_split [] input
+  rcases h4 with rfl | ⟨c, t, rfl, hc⟩
+  · simp at h1; subst h1
+    have hws : (IStream.ofBytes input).ws = { left := input.reverse, right := [], eof := true } := by
+      simpa [IStream.ofBytes] using ws_blank [] input true h2
+    simp only [attrRead, hws] at h
+    simp [IStream.peekC, IStream.peek, IStream.sentry, IStream.good, readEntityRef, IStream.ws, IStream.getChar,
+      IStream.putback, checkRemainingInput, IStream.clear, sepSkip, skipSeps, dropSpaces] at h
+    have : r.s.left = input.reverse ∧ r.s.right = [] := by
+      rw [← h]; cases cfg.criSkipsComments <;> simp [IStream.ws, IStream.sentry, IStream.good, dropSpaces]
+    exact ⟨input, [], [], by simp [this.2], by simp [this.1], NoCP.blanks h2, Between.nil cfg, NoCP.nil⟩
+  · subst h1
+    by_cases h36 : c = 36
+    · subst h36; exact kept_dollar ops cfg lookup _ nullable sp1 t h2 r h
+    · by_cases hdl : c = 44 ∨ c = 41
+      · exact kept_missing ops cfg lookup _ nullable sp1 t c h2 hdl r h
+      · have hcond : (c == 36 || c == 44 || c == 41) = false := by
+          simp at hdl ⊢; exact ⟨⟨h36, hdl.1⟩, hdl.2⟩
+        have hcNo : NoCP [c] := by
+          intro b hb; simp at hb; subst hb; simp at hdl; exact hdl
+        have hpre : (IStream.ofBytes (sp1 ++ c :: t)).ws = { left := sp1.reverse, right := c :: t } := by
+          simpa [IStream.ofBytes] using ws_good [] sp1 c t true h2 hc
+        simp only [attrRead, hpre, peekC_good, hcond, readEntityRef, ws_good0 _ _ _ _ hc, getChar_good _ _ _ hc] at h
+        simp only [Bool.false_eq_true, if_false, Option.getD_some, Option.isSome_some, Bool.and_true, Outcome.ok.injEq] at h
+        -- every path ends in CheckRemainingInput on a stream that took `kk` after the blanks
+        have key : ∀ (kk : List Byte) (s' : IStream) (E : Sev), NoCP kk → s'.bad = false →
+            s'.left = kk.reverse ++ sp1.reverse → c :: t = kk ++ s'.right →
+            KeptDelims cfg (sp1 ++ c :: t) (checkRemainingInput cfg (some attrDelims) s' E).1 := by
+          intro kk s' E a1 a2 a3 a4
+          have := kept_through_cri' cfg sp1 kk s' E h2 a1 a2 a3
+          rw [List.append_assoc, ← a4] at this
+          exact this
+        by_cases hsharp : (c == 35 || c == 64) = true
+        · simp only [hsharp, if_true] at h
+          obtain ⟨E, hE⟩ := refTail_stream cfg lookup { left := c :: sp1.reverse, right := t, skipws := true }
+            (if (c == 64) = true then Sev.null.greater Sev.warning else Sev.null)
+          have hrs : r.s = (refTail cfg lookup (some attrDelims) { left := c :: sp1.reverse, right := t, skipws := true }
+              (if (c == 64) = true then Sev.null.greater Sev.warning else Sev.null)).2.1 := by rw [← h]
+          rw [hrs, hE]
+          obtain ⟨spx, body', hb1, hb2, hb3, hb4⟩ := dropSpaces_split (c :: sp1.reverse) t
+          rcases hb4 with rfl | ⟨c', t', rfl, hc'⟩
+          · simp only [List.append_nil] at hb1; subst hb1
+            rw [extractInt32_blank _ _ hb2]
+            exact key (c :: t) _ _ (NoCP.append (a := [c]) hcNo (NoCP.blanks hb2)) rfl (by simp) (by simp)
+          · subst hb1
+            rw [extractInt32_skip _ _ _ _ hb2 hc']
+            obtain ⟨tok, rest, hr, _, hs2, _, htokd⟩ :=
+              scanInt_split longMin longMax (by decide) (by decide) (spx.reverse ++ c :: sp1.reverse) (c' :: t')
+            generalize scanInt longMin longMax (spx.reverse ++ c :: sp1.reverse) (c' :: t') = sc at hs2 ⊢
+            obtain ⟨res, l', r'⟩ := sc
+            simp only [Prod.mk.injEq] at hs2
+            obtain ⟨rfl, rfl⟩ := hs2
+            have hkk : NoCP (c :: (spx ++ tok)) :=
+              NoCP.append (a := [c]) hcNo ((NoCP.blanks hb2).append (NoCP.of_notDelim htokd))
+            have hin : c :: (spx ++ c' :: t') = (c :: (spx ++ tok)) ++ r' := by rw [hr]; simp
+            refine key _ _ _ hkk ?_ ?_ ?_
+            · rfl
+            · simp
+            · exact hin
+        · have hno : (c == 35 || c == 64) = false := by simpa using hsharp
+          simp only [hno, Bool.false_eq_true, if_false, putback_good] at h
+          subst h
+          exact key [] _ _ NoCP.nil rfl (by simp) (by simp)
+
+
+/-- STRING: outside the literal itself (which may contain `,` and `)`), the delimiter is never consumed — for any input and
+    any configuration: what the reader took is blanks, then nothing or a text that starts with an apostrophe, then separators,
+    then a stretch without `,`/`)` -/
+theorem C09_delim_kept_string {F} (ops : FloatOps F) (cfg : LexCfg) (lookup : Int → RefLookup)
+    (nullable : Bool) (input : List Byte) (r : ReadResult F)
+    (h : attrRead ops cfg lookup .string nullable (IStream.ofBytes input) = .ok r) :
+    ∃ sp1 lit lay b, input = sp1 ++ lit ++ lay ++ b ++ r.s.right ∧ r.s.left = (sp1 ++ lit ++ lay ++ b).reverse ∧
+      sp1.all isSpace = true ∧ (lit = [] ∨ lit = [36] ∨ ∃ m, lit = 39 :: m) ∧ Between cfg lay ∧ NoCP b := by
+  obtain ⟨sp1, body, h1, h2, h3, h4⟩ := dropSpaces_split [] input
+  -- through CheckRemainingInput from a stream that took `lit` after the blanks
+  have key : ∀ (lit : List Byte) (s' : IStream) (E : Sev), s'.bad = false → s'.left = lit.reverse ++ sp1.reverse →
+      body = lit ++ s'.right → (lit = [] ∨ lit = [36] ∨ ∃ m, lit = 39 :: m) →
+      ∃ sp1 lit lay b, input = sp1 ++ lit ++ lay ++ b ++ (checkRemainingInput cfg (some attrDelims) s' E).1.right ∧
+        (checkRemainingInput cfg (some attrDelims) s' E).1.left = (sp1 ++ lit ++ lay ++ b).reverse ∧
+        sp1.all isSpace = true ∧ (lit = [] ∨ lit = [36] ∨ ∃ m, lit = 39 :: m) ∧ Between cfg lay ∧ NoCP b := by
+    intro lit s' E a1 a2 a3 a4
+    obtain ⟨lay, g, hm1, hm2, hm3, hm4⟩ := cri_left cfg s' E a1
+    generalize checkRemainingInput cfg (some attrDelims) s' E = X at hm1 hm2 ⊢
+    refine ⟨sp1, lit, lay, g, ?_, ?_, h2, a4, hm3, NoCP.of_notDelim hm4⟩
+    · rw [h1, a3, hm2]; simp
+    · rw [hm1, a2]; simp
+  rcases h4 with rfl | ⟨c, t, rfl, hc⟩
+  · simp at h1; subst h1
+    have hws : (IStream.ofBytes input).ws = { left := input.reverse, right := [], eof := true } := by
+      simpa [IStream.ofBytes] using ws_blank [] input true h2
+    simp only [attrRead, hws] at h
+    simp [IStream.peekC, IStream.peek, IStream.sentry, IStream.good, stringRead, getLiteralStr, IStream.setSkipws, IStream.ws,
+      checkRemainingInput] at h
+    subst h
+    exact ⟨input, [], [], [], by simp, by simp, h2, Or.inl rfl, Between.nil cfg, NoCP.nil⟩
+  · subst h1
+    by_cases h36 : c = 36
+    · subst h36
+      rw [attrRead_dollar ops cfg lookup .string nullable sp1 t h2] at h
+      simp only [Outcome.ok.injEq] at h
+      subst h
+      exact key [36] { left := 36 :: sp1.reverse, right := t } Sev.null rfl (by simp) (by simp) (Or.inr (Or.inl rfl))
+    · by_cases hdl : c = 44 ∨ c = 41
+      · rw [attrRead_missing ops cfg lookup .string nullable sp1 t c h2 hdl] at h
+        simp only [Outcome.ok.injEq] at h
+        subst h
+        exact ⟨sp1, [], [], [], by simp, by simp, h2, Or.inl rfl, Between.nil cfg, NoCP.nil⟩
+      · have hcond : (c == 36 || c == 44 || c == 41) = false := by
+          simp at hdl ⊢; exact ⟨⟨h36, hdl.1⟩, hdl.2⟩
+        have hpre : (IStream.ofBytes (sp1 ++ c :: t)).ws = { left := sp1.reverse, right := c :: t } := by
+          simpa [IStream.ofBytes] using ws_good [] sp1 c t true h2 hc
+        simp only [attrRead, hpre, peekC_good, hcond, Bool.false_eq_true, if_false, Outcome.ok.injEq, stringRead,
+          IStream.setSkipws, getLiteralStr, ws_good0 _ _ _ _ hc, IStream.good, Bool.not_false, Bool.and_self, Bool.not_true] at h
+        by_cases hq : c = 39
+        · subst hq
+          simp only [beq_self_eq_true, if_true] at h
+          obtain ⟨m, hm1, hm2, _, _, _, _⟩ := litLoop_spec [39] true t (by simp)
+          generalize litLoop [39] true t = ll at h hm1 hm2
+          obtain ⟨srev, rest, esc, hitEnd⟩ := ll
+          simp only at h hm1 hm2
+          subst hm2
+          have hne' : (m.reverse ++ [39]).reverse.isEmpty = false := by simp
+          simp only [hne', Bool.false_eq_true, if_false] at h
+          subst h
+          exact key (39 :: m) { left := m.reverse ++ [39] ++ sp1.reverse, right := rest, eof := hitEnd, skipws := false } _ rfl
+            (by simp) (by simp [hm1]) (Or.inr (Or.inr ⟨m, rfl⟩))
+        · have hq' : (c == 39) = false := by simpa using hq
+          simp only [hq', Bool.false_eq_true, if_false, List.isEmpty_nil, if_true] at h
+          subst h
+          exact key [] { left := sp1.reverse, right := c :: t, skipws := true } _ rfl (by simp) (by simp) (Or.inl rfl)
+
+
 /-! ## witnesses: what the unrepaired scanners did, and the in-band null (any configuration)
 
 Each `…_witness_unrepaired` theorem evaluates the model under the configuration of the tree *before* the C09 repairs on the
